@@ -32,6 +32,7 @@ type c08Tx struct {
 	Net     int64   `json:"net"`
 	Size    int     `json:"size"` // wanted serialized size (script padded); the real size is what is reported
 	High    bool    `json:"high,omitempty"`
+	NA      bool    `json:"na,omitempty"` // NotaryAssisted attribute (a main transaction co-signed by the Notary contract)
 	Confl   []int   `json:"confl,omitempty"` // universe indices (< own index) or >= 1000: a foreign hash
 	Oracle  *uint64 `json:"oracle,omitempty"`
 }
@@ -91,8 +92,13 @@ type c08Feer struct {
 }
 
 func (f *c08Feer) FeePerByte() int64 { return f.fpb }
+// as Blockchain.GetUtilityTokenBalance: the deposit of the secondary account when the primary is the Notary
+// contract, otherwise the GAS balance of the primary whatever the secondary is
 func (f *c08Feer) GetUtilityTokenBalance(p, s util.Uint160) *big.Int {
-	return big.NewInt(f.bal[[2]util.Uint160{p, s}])
+	if p.Equals(nativehashes.Notary) && !s.Equals(util.Uint160{}) {
+		return big.NewInt(f.bal[[2]util.Uint160{p, s}])
+	}
+	return big.NewInt(f.bal[[2]util.Uint160{p, {}}])
 }
 func (f *c08Feer) BlockHeight() uint32 { return f.height }
 func (f *c08Feer) set(b []c08Bal) {
@@ -121,6 +127,9 @@ func c08Build(txs []c08Tx) ([]*transaction.Transaction, error) {
 			}
 			if d.High {
 				tx.Attributes = append(tx.Attributes, transaction.Attribute{Type: transaction.HighPriority})
+			}
+			if d.NA {
+				tx.Attributes = append(tx.Attributes, transaction.Attribute{Type: transaction.NotaryAssistedT, Value: &transaction.NotaryAssisted{NKeys: 1}})
 			}
 			if d.Oracle != nil {
 				tx.Attributes = append(tx.Attributes, transaction.Attribute{Type: transaction.OracleResponseT,
@@ -654,12 +663,14 @@ func c08Gen(r *rng, thorough bool) c08Input {
 	sponsoredProfile := false
 	cosignedProfile := false // who signs vs who pays: conflicts against transactions the newcomer's payer only co-signed
 	pCosign := 18
+	pNotaryCo := 12
 	switch r.intn(6) {
 	case 2:
 		cosignedProfile = true
 		ordinary = []int{2, 3}
 		depositors = []int{2, 3} // every payer account both sends ordinary transactions and sponsors Notary ones
 		pNotary, pConfl, pOracle, pCosign = 45, 80, 8, 40
+		pNotaryCo = 40
 		in.Cap = 3 + r.intn(4)
 	case 0: // sponsored transactions of several depositors replacing each other, deposits nearly used up
 		pNotary, pConfl, pOracle = 85, 75, 10
@@ -695,6 +706,15 @@ func c08Gen(r *rng, thorough bool) c08Input {
 			if !dup && r.chance(pCosign) {
 				d.Signers = append(d.Signers, a)
 			}
+		}
+		// a main transaction: ordinary sender, the Notary contract among the further signers (position 1 or 2)
+		if d.Signers[0] != 1 && r.chance(pNotaryCo) {
+			pos := 1
+			if len(d.Signers) >= 2 && r.bool() {
+				pos = 2
+			}
+			d.Signers = append(d.Signers[:pos], append([]int{1}, d.Signers[pos:]...)...)
+			d.NA = true
 		}
 		d.Net = pick(r, nets)
 		if sponsoredProfile || cosignedProfile {
